@@ -71,11 +71,15 @@ CfgPoS3 == [auth |-> <<1, 2, 3>>, bal |-> [m \in Masters |-> 2], thr |-> 1, mbp 
 CfgPoS0 == [auth |-> <<1, 2, 3>>, bal |-> [m \in Masters |-> 2], thr |-> 1, mbp |-> 3, hay |-> TRUE, tp |-> 0, E |-> 2, per |-> 2, queue |-> <<1, 2, 3>>,
             cord |-> <<1, 2, 3, 4>>]
 
+\* PoS from genesis, epoch far away: sibling / skipped-slot shapes only
+CfgPoS0s == [auth |-> <<1, 2, 3>>, bal |-> [m \in Masters |-> 2], thr |-> 1, mbp |-> 3, hay |-> TRUE, tp |-> 0, E |-> 8, per |-> 8,
+             queue |-> <<1, 2, 3>>, cord |-> <<1, 2, 3>>]
+
 KindsMember == {Tx("add", 4, 0), Tx("revoke", 1, 0), Tx("revoke", 2, 0), Tx("revoke", 3, 0), Tx("mbp", 0, 2), Tx("mbp", 0, 3)}
-KindsMemberQ == {Tx("add", 4, 0), Tx("revoke", 1, 0), Tx("revoke", 3, 0), Tx("mbp", 0, 2)}
+KindsMemberQ == {Tx("add", 4, 0), Tx("revoke", 1, 0), Tx("mbp", 0, 2)}
 KindsEndorse == {Tx("thr", 0, 1), Tx("thr", 0, 2), Tx("out", 1, 0), Tx("in", 1, 0), Tx("out", 3, 0), Tx("in", 3, 0),
                  Tx("mbp", 0, 2), Tx("mbp", 0, 3)}
-KindsEndorseQ == {Tx("thr", 0, 1), Tx("thr", 0, 2), Tx("out", 1, 0), Tx("in", 3, 0)}
+KindsEndorseQ == {Tx("thr", 0, 2), Tx("out", 1, 0), Tx("in", 3, 0)}
 KindsSibQ == {Tx("out", 1, 0), Tx("in", 3, 0)}
 KindsSibM == {Tx("thr", 0, 2), Tx("out", 1, 0), Tx("in", 3, 0), Tx("revoke", 1, 0)}
 KindsSibT == {Tx("add", 4, 0), Tx("revoke", 1, 0), Tx("thr", 0, 2), Tx("out", 1, 0), Tx("in", 1, 0), Tx("mbp", 0, 2)}
@@ -95,6 +99,8 @@ NoXferInv   == [AllRules EXCEPT !.xferInv = FALSE]
 NoPosSync   == [AllRules EXCEPT !.posSync = FALSE]
 NoPosOnline == [AllRules EXCEPT !.posOnline = FALSE]
 NoPosBen    == [AllRules EXCEPT !.posBen = FALSE]
+NoCow       == [AllRules EXCEPT !.cow = FALSE]            \* Candidates.Update writes into the shared candidate slice
+NoPosNoWrite == [AllRules EXCEPT !.posNoWrite = FALSE]    \* the validator writes online/offline updates into the cached leader slice
 
 \* ---- vacuity guards: each of these "never happens" statements must be refuted by the exploration ---------------------
 X_NeverHit == \A n \in Nodes : \A b \in DOMAIN blocks : blocks[b].par \in DOMAIN blocks => blocks[b].par \notin DOMAIN vcache[n]
